@@ -13,7 +13,7 @@ RULE = ("valid (configuration, target type) pairs from C04's generators with exa
         "cases one list of the configuration is grown to its final form by a later Merge (AppendValues, PrependValues, or a longer list "
         "merged over a shorter one) so that list elements get their paths from fields.append / the merge code. Oracle: the "
         "call fails with a ucfg.Error (typed, Reason and Class set) whose text names the full dotted path of exactly that setting and, "
-        "with metadata, the source; plus every error produced by the low-level API in C12-style histories is typed. Non-trivial: the "
+        "with metadata, the source; plus every error produced by the low-level API in C12-style histories is typed. Plus: settings read by hand-written Unpack methods (all seven Unpacker interfaces) failing with plain errors and with errors that already are ucfg.Errors; the empty list and a list one short as the faulty setting. Non-trivial: the "
         "fault is nested at depth >= 2. Distinct by (fault kind, depth, container kinds on the way, with/without source).")
 TRUSTED_BASE = ["Lean 4 kernel", "the generator's knowledge of where it injected the fault (the expected path)", "correspondence harness"]
 ASSUMPTIONS = ["message wording is not compared, only the quoted path and the source", "types without inline maps (an inline map captures every key: D24)"]
